@@ -33,9 +33,10 @@ def run(ctx, ss):
     # C04.5 'agrees with the table CDecay produces': the .dec visitor writes, into each particle token, exactly the
     # conjugate match of THAT token computed from THIS file's ChargeConj table (falling back to charge_conjugate_name),
     # and keeps no other state -- the clauses C03.3 / C03.4 / C03.5 decide, shared here
-    from .c03 import c03_3, c03_4, c03_5
+    from .c03 import c03_2, c03_3, c03_4, c03_5
     from .c05 import _as
-    for f in (c03_3, c03_4, c03_5):
+    # (c03_2: each CDecay table is conjugated on its OWN deep copy -- a copy shared by two statements is conjugated twice, i.e. back)
+    for f in (c03_2, c03_3, c03_4, c03_5):
         ctx.guard("C04.5", lambda c, s_, f=f: _as(c, s_, f, "C04.5"), ss)
     # ... and the table CDecay produces is REPORTED from the conjugated tokens of its own lines: each reported field is the
     # accessor applied to this decay line (C01.4 / C16.9 shared), nothing on the way is memoised on a tree or a parser
